@@ -115,7 +115,7 @@ PROPERTIES = {
     "C13": {
         "functions": ["opfython.models.unsupervised.UnsupervisedOPF._clustering",
                       "opfython.models.knn_supervised.KNNSupervisedOPF._clustering",
-                      "opfython.models.unsupervised.UnsupervisedOPF.propagate_labels"] + HEAP_FUNCS,
+                      "opfython.models.unsupervised.UnsupervisedOPF.propagate_labels"] + HEAP_FUNCS + ["lean:Forest"],
         "lemmas": HEAP_LEMMAS + ["inj_card"],
         "files": ["opfython/models/unsupervised.py", "opfython/models/knn_supervised.py", "opfython/core/heap.py",
                   "opfython/core/node.py", "opfython/core/subgraph.py", "opfython/subgraphs/knn.py",
@@ -127,9 +127,10 @@ PROPERTIES = {
             "indices, lists at least n_plateaus + k long) is what calculate_pdf / create_arcs leave behind; that link is "
             "the subject of C12 (until C12's contracts are discharged it is checked by the bounded channel only)",
             "float64 neighbour indices stored in the adjacency lists are modelled as integers (exact below 2^53)",
-            "'reaches exactly one root, and the recorded root is that root' follows from the discharged clauses root(x) = "
-            "root(pred x), pred(root x) = NIL and the strictly-earlier-predecessor clause by induction along the chain "
-            "(pencil step)",
+            "'reaches exactly one root, the recorded root is that root, and the sample carries the root's label / cluster "
+            "identifier' follows from the discharged clauses C13_roots, C13_links and the strictly-earlier-predecessor "
+            "clause: theorems reaches_recorded_root / only_one_root of lemmas/Forest.lean (Lean 4 + Mathlib, re-checked "
+            "by `lean` on every run); the correspondence of hypotheses and clauses is by inspection",
         ],
     },
     "C06": {
